@@ -20,7 +20,7 @@ def path_hyps(path, extra=()):
 
 
 def explore_checked(ses, oid, run, hyps, *, function=None, allowed_exc=(), timeout_ms=2000, max_paths=64,
-                    replay=None, limit_group="getitem"):
+                    replay=None, limit_group="getitem", on_limit=None):
     """Explore all paths of run(path) and turn engine-level outcomes into obligations:
       * a path that ends `undecided`            -> undecided obligation (engine limit, not a violation)
       * a path that raises an unexpected exception -> obligation "this path is infeasible" (pc ⇒ False)
@@ -37,6 +37,8 @@ def explore_checked(ses, oid, run, hyps, *, function=None, allowed_exc=(), timeo
             ok.append(r)
         elif r.outcome == "undecided":
             ses.engine_limit(f"{oid}/supported", f"{type(r.exc).__name__}: {r.exc}", function=function, group=limit_group)
+            if on_limit is not None:
+                on_limit(r)  # what the path did before it left the verified subset (ghost logs) can still be inspected
         else:
             if allowed_exc and isinstance(r.exc, allowed_exc):
                 ok.append(r)
